@@ -170,10 +170,15 @@ def _holds_instance(x, cls, depth=0):
     return False
 
 
+def _keyify(k):
+    """A key modulo the list/tuple carrier, still hashable (nested sequences become nested tuples)."""
+    return tuple(_keyify(e) for e in k) if isinstance(k, (tuple, list)) else k
+
+
 def _listify(d):
     """Data modulo the list/tuple carrier (a union may serialise through a member that writes lists where another writes tuples)."""
     if isinstance(d, collections.abc.Mapping):
-        return {(tuple(map(_listify, k)) if isinstance(k, tuple) else k): _listify(v) for k, v in d.items()}
+        return {_keyify(k): _listify(v) for k, v in d.items()}
     if isinstance(d, (list, tuple)):
         return [_listify(v) for v in d]
     return d
@@ -192,6 +197,20 @@ def _has_nan(obj, depth=0):
         return any(_has_nan(o, depth + 1) for o in obj)
     if hasattr(obj, '__pane_info__'):
         return any(_has_nan(getattr(obj, f.name, None), depth + 1) for f in obj.__pane_info__.fields)
+    return False
+
+
+def _holds_any_dataclass(x, depth=0):
+    if hasattr(type(x), '__pane_info__'):
+        return True
+    if depth > 8:
+        return False
+    if isinstance(x, collections.abc.Mapping):
+        return any(_holds_any_dataclass(k, depth + 1) or _holds_any_dataclass(v, depth + 1) for k, v in x.items())
+    if isinstance(x, (list, tuple, set, frozenset, collections.deque)):
+        return any(_holds_any_dataclass(e, depth + 1) for e in x)
+    if type(x).__name__ == 'ValueOrList':
+        return _holds_any_dataclass(x._inner, depth + 1)
     return False
 
 
@@ -230,7 +249,9 @@ def classify(ty, x):
             # earlier member that would read it as data (a datetime as a date, a bool as a count) serialises it ITS way - or a later one
             # does, because x's own member's fast pass refuses the typed value (a ValueOrList instance is not data its converter
             # reads): what was written is then not what x's own member writes, and nobody reads it back as x
-            if j_true is not None:
+            if j_true is not None and not _holds_any_dataclass(x):
+                # (not when the value holds dataclass instances: a dataclass's fast pass does not take instances, so an instance being
+                #  claimed by another member - a base class's variant, say - is never this inherent limitation; seeded change C05-r2-2)
                 j_ser = None
                 for j, A in enumerate(members):
                     if observe(lambda: env.make_converter(A).try_convert(x)).kind == 'value':
